@@ -12,6 +12,7 @@ import (
 	"os"
 	"path/filepath"
 	"sort"
+	"strings"
 	"sync"
 	"testing"
 	"time"
@@ -55,7 +56,8 @@ func buildJobConfig(c *jcfg, id, src, src2, snk, stubURL string) *jobs.JobConfig
 	case "HttpDatasetSource":
 		cfg.Source = map[string]interface{}{"Type": "HttpDatasetSource", "Url": stubURL + "/source"}
 	default:
-		cfg.Source = map[string]interface{}{"Type": c.Source}
+		// "X~" is block X with its type and nothing else (whether that is accepted is up to the scheduler's validation)
+		cfg.Source = map[string]interface{}{"Type": strings.TrimSuffix(c.Source, "~")}
 	}
 	js := `function transform_entities(entities) { return entities; }`
 	switch c.Transform {
@@ -71,7 +73,7 @@ func buildJobConfig(c *jcfg, id, src, src2, snk, stubURL string) *jobs.JobConfig
 		cfg.Transform = map[string]interface{}{"Type": "HttpTransform", "Url": stubURL + "/transform"}
 	case "none":
 	default:
-		cfg.Transform = map[string]interface{}{"Type": c.Transform}
+		cfg.Transform = map[string]interface{}{"Type": strings.TrimSuffix(c.Transform, "~")}
 	}
 	switch c.Sink {
 	case "DatasetSink":
@@ -79,7 +81,7 @@ func buildJobConfig(c *jcfg, id, src, src2, snk, stubURL string) *jobs.JobConfig
 	case "HttpDatasetSink":
 		cfg.Sink = map[string]interface{}{"Type": "HttpDatasetSink", "Url": stubURL + "/sink"}
 	default:
-		cfg.Sink = map[string]interface{}{"Type": c.Sink}
+		cfg.Sink = map[string]interface{}{"Type": strings.TrimSuffix(c.Sink, "~")}
 	}
 	var hs jobs.ErrorHandlers
 	switch c.Handlers {
@@ -233,7 +235,16 @@ func TestJobConfigs(t *testing.T) {
 			if failing && c.Sink == "DatasetSink" {
 				cfg.Sink["Name"] = "missing-" + tag // a sink dataset that does not exist
 			}
-			hjs, err := w.Sched().VerifTriggeredJobs(cfg)
+			hjs, err := func() (hjs []*jobs.VerifHandledJob, err error) {
+				// a definition whose validation panics (a block without its name / url) is not an accepted job: over
+				// HTTP the handler's recover middleware answers 500.  Nothing is required of it here.
+				defer func() {
+					if rc := recover(); rc != nil {
+						hjs, err = nil, fmt.Errorf("validation panicked: %v", rc)
+					}
+				}()
+				return w.Sched().VerifTriggeredJobs(cfg)
+			}()
 			if err != nil {
 				continue // not accepted: nothing is required
 			}
